@@ -133,6 +133,51 @@ func buildVariants3(rng *rand.Rand, s *scene3) (res []variant3, flattenCount int
 		}
 		res = append(res, variant3{"NewJoinedCollider(nested, n-ary)", nestedJoined3(rng, nj), nil, tris})
 
+		// one joined collider used as a child of two different joins (base+x built first, then
+		// base+y): each join, and the shared child, must keep answering for exactly its own members
+		if n >= 4 {
+			all := cp()
+			rng.Shuffle(len(all), func(i, j int) { all[i], all[j] = all[j], all[i] })
+			amn, amx := sceneBounds(all)
+			// two triangles that do not contribute to the overall bounds, so the child's bounds equal
+			// the join's (the case NewJoinedCollider flattens)
+			xi, yi := -1, -1
+			for i := 0; i < len(all) && yi < 0; i++ {
+				rest := append(append([]*model3d.Triangle{}, all[:i]...), all[i+1:]...)
+				if xi >= 0 {
+					rest = nil
+					for j, t := range all {
+						if j != xi && j != i {
+							rest = append(rest, t)
+						}
+					}
+				}
+				if mn, mx := sceneBounds(rest); mn == amn && mx == amx {
+					if xi < 0 {
+						xi = i
+					} else {
+						yi = i
+					}
+				}
+			}
+			if xi >= 0 && yi >= 0 {
+				var baseTris []*model3d.Triangle
+				var baseColl []model3d.Collider
+				for j, t := range all {
+					if j != xi && j != yi {
+						baseTris = append(baseTris, t)
+						baseColl = append(baseColl, t)
+					}
+				}
+				base := model3d.NewJoinedCollider(baseColl)
+				a := model3d.NewJoinedCollider([]model3d.Collider{base, all[xi]})
+				b := model3d.NewJoinedCollider([]model3d.Collider{base, all[yi]})
+				res = append(res, variant3{"NewJoinedCollider(shared child + x, built first)", a, nil, append(append([]*model3d.Triangle{}, baseTris...), all[xi])})
+				res = append(res, variant3{"NewJoinedCollider(shared child + y, built second)", b, nil, append(append([]*model3d.Triangle{}, baseTris...), all[yi])})
+				res = append(res, variant3{"NewJoinedCollider(the shared child)", base, nil, baseTris})
+			}
+		}
+
 		cs := make([]model3d.Collider, n)
 		gg := cp()
 		model3d.GroupTriangles(gg)
